@@ -12,3 +12,4 @@ def run(ck):
     region.r5_4_success_writes_result(ck, P)
     region.r5_5_copy_sets_count(ck, P)
     region.r5_6_subsumption_single_rect(ck, P)
+    region.r5_7_sort_key_fields(ck, P)
